@@ -484,6 +484,16 @@ def check_tightening(ctx: Ctx, f):
             at = gv.guard_atoms(cfg.node_of(s), stable_only=False)
             ok = any(a.startswith("T:_detect_binary(") for a in at)
             ctx.ob("C04-O6", "R1 STATUS-GUARD", f, f"root bound tightening `{ast.unparse(s)[:40]}` is dominated by the explicit x<=1 row detector", ok, f"{sorted(at)[:6]}", node=s)
+    # the box [0, 1] is put on the integer variables only: any other write to the root bounds under the detector
+    whole = [x for x in own_nodes(f.node) if isinstance(x, ast.Assign) and ast.unparse(x.targets[0]) in ("lower", "upper") and any(a.startswith("T:_detect_binary(") for a in gv.guard_atoms(cfg.node_of(x), stable_only=False))]
+    ctx.ob("C04-O6", "R1 STATUS-GUARD", f, "under the detector only the bounds of the integer variables are tightened (element by element, over int_set)", not whole, f"`{ast.unparse(whole[0])[:60]}` rewrites the bounds of every variable: a continuous variable is capped at 1 in every node LP and the tree is exhausted over a smaller feasible set" if whole else "", node=whole[0] if whole else f.node)
+    for s in own_nodes(f.node):
+        if isinstance(s, ast.Assign) and isinstance(s.targets[0], ast.Subscript) and isinstance(s.targets[0].value, ast.Name) and s.targets[0].value.id in ("lower", "upper"):
+            lp_ = cfg.node_of(s).loop
+            if any(a.startswith("T:_detect_binary(") for a in gv.guard_atoms(cfg.node_of(s), stable_only=False)):
+                ctx.ob("C04-O6", "R1 STATUS-GUARD", f, f"`{ast.unparse(s)[:40]}` ranges over the integer variables", lp_ is not None and lp_.kind == "for" and ast.unparse(lp_.ast.iter) == "int_set" and ast.unparse(s.targets[0].slice) == ast.unparse(lp_.ast.target), "", node=s)
+    if whole:
+        n = max(n, 2)
     ctx.floor("root bound stores", n, 2)
     db = ctx.func(MOD, "_detect_binary")
     txt = ast.unparse(db.node)
@@ -574,6 +584,11 @@ def _v_budget_break_after_pop(tree):
     w[0].body[prune[0] + 1 : prune[0] + 1] = M.stmts("if nodes_explored >= max_nodes:\n    break")
 
 
+def _v_box_on_all_variables(tree):
+    g = M.find_func(tree, "solve_milp")
+    M.replace_stmt(g, lambda s: isinstance(s, ast.For) and M.src_is(s.iter, "int_set") and M.src_has(s, "upper[j] = min(upper[j], 1.0)"), M.stmts("lower = [max(lo, 0.0) for lo in lower]\nupper = [min(hi, 1.0) for hi in upper]"))
+
+
 def _v_sign_test_integers_only(tree):
     g = M.find_func(tree, "_is_feasible")
     M.replace_stmt(g, lambda s: isinstance(s, ast.If) and M.src_has(s.test, "x[j] < -eps"), [])
@@ -625,6 +640,7 @@ VARIANTS = [
     M.Variant("nodes pruned with slack 1 - eps when all costs are integers (seed C04-F)", ML, _v_integral_cutoff, "C04-O10"),
     M.Variant("right child caps instead of raising the branching variable", ML, _v_right_child_keeps_lower, "C04-O11"),
     M.Variant("node budget tested after the pop: the last live node is dropped (seed C04-G)", ML, _v_budget_break_after_pop, "C04-O4"),
+    M.Variant("binary box put on every variable, continuous ones included (seed C04-J)", ML, _v_box_on_all_variables, "C04-O6"),
     M.Variant("twin: reformat", ML, _t_reformat, None),
     M.Variant("twin: rename bound locals", ML, _t_rename, None),
     M.Variant("twin: status conditional written the other way", ML, _t_flag_status, None),
